@@ -511,6 +511,31 @@ def r7_timestamp_roundtrip(ctx):
         t = peel(fa.expr_operand(s.args[1], s.b, 'T'))
         # the stored entry (a tuple, or a private struct) carries the time parameter itself
         ok = t[0] == 'agg' and any(peel(x)[0] == 'arg' and peel(x)[1] == 2 for x in t[2])
+        if not ok:
+            # the entry carries no time of its own: it is only filed when time == B (B a field of the queue), fetch_next hands B out with
+            # every zero-delay entry, and B is written only on paths that found the zero-delay container empty — so B is still that time
+            eqs = [a for _, a in fa.guard_atoms(s.b) if a[0] == 'cmp' and a[1] == 'eq' and ('arg', 'time') in (a[2], a[3])]
+            bfs = {(a[3] if a[2] == ('arg', 'time') else a[2])[2] for a in eqs if (a[3] if a[2] == ('arg', 'time') else a[2])[0] == 'field'}
+            ffz = P.fns.get(Q + '::fetch_next')
+            if len(bfs) == 1 and ffz is not None:
+                bfz = next(iter(bfs))
+                good = True
+                nz = 0
+                for path, outcome, decs in fn_paths(ctx, ffz):
+                    if outcome != 'return':
+                        continue
+                    outs = [r for zn in EXTRACT_Z for _, r in call_outcomes(ffz, path, decs, zn)]
+                    effs = path_effects(ffz, path)
+                    wrote = any(e[0] == 'w' and e[2] == bfz for e in effs)
+                    if 'Some' in outs:
+                        nz += 1
+                        r = path_ret_resolved(ffz, path)
+                        r = peel(r) if r is not None else None
+                        tm = peel(r[2][1]) if r is not None and r[0] == 'agg' and r[1] == 'tuple' and len(r[2]) == 2 else None
+                        good = good and tm is not None and tm[0] == 'field' and tm[2] == bfz and not wrote
+                    elif wrote:
+                        good = good and 'None' in outs
+                ok = good and nz >= 1
         ctx.check(ok, 'zero-keeps-time', 'the zero-delay container keeps the given time with the event', s.where())
     ff = ctx.anchor(Q + '::fetch_next')
     if ff:
